@@ -385,6 +385,75 @@ func runC16(c *Ctx) {
 		}
 	}
 
+	// ---------------------------------------------------------------- R3
+	c.rule("R3", "every source of a reply payload guarantees at least a DNS header (12 bytes) before header fields are indexed", 3)
+	{
+		// datagram reader: a read shorter than the header is never returned
+		if f := c.fn(relTransport, "", "readMsgUdp"); f != nil {
+			good := false
+			for _, r := range returnsOf(f) {
+				rv := returnedValues(r)
+				if isNilConst(rv[0]) {
+					continue
+				}
+				for _, g := range guardsOfInstr(r) {
+					if cm, ok := g.asCmp(); ok && cm.Op == token.GEQ {
+						if n, ok := constInt(cm.Y); ok && n >= 12 {
+							if ex, ok := cm.X.(*ssa.Extract); ok {
+								if cl, ok := ex.Tuple.(*ssa.Call); ok && cl.Call.IsInvoke() && cl.Call.Method.Name() == "Read" {
+									good = true
+								}
+							}
+						}
+					}
+				}
+			}
+			c.check(good, "min-length@readMsgUdp", f.Pos(), "datagrams shorter than 12 bytes are never returned", "a datagram shorter than a DNS header can be returned: the reader indexes the id of a 0/1-byte payload and panics")
+		}
+		// DoH body
+		if f := c.fn(relDoh, "Upstream", "exchange"); f != nil {
+			good := false
+			for _, r := range returnsOf(f) {
+				rv := returnedValues(r)
+				if isNilConst(rv[0]) {
+					continue
+				}
+				for _, g := range guardsOfInstr(r) {
+					if cm, ok := g.asCmp(); ok && cm.Op == token.GEQ {
+						if n, ok := constInt(cm.Y); ok && n >= 12 {
+							if cl, ok := cm.X.(*ssa.Call); ok && strings.HasSuffix(callName(cl), ".Len") {
+								good = true
+							}
+						}
+					}
+				}
+			}
+			c.check(good, "min-length@doh.exchange", f.Pos(), "HTTP bodies shorter than 12 bytes are rejected", "a DoH body shorter than a DNS header is returned as a reply")
+		}
+		// header accesses on reply payloads use constant offsets < 12
+		n := 0
+		bad := ""
+		for _, f := range p.funcsIn(relTransport, relDoh, relUpstream) {
+			eachInstr(f, func(in ssa.Instruction) {
+				ia, ok := in.(*ssa.IndexAddr)
+				if !ok {
+					return
+				}
+				if _, isParam := ia.X.(*ssa.Parameter); !isParam {
+					return
+				}
+				if f.Name() != "msgTruncated" {
+					return
+				}
+				n++
+				if k, ok := constInt(ia.Index); !ok || k >= 12 {
+					bad = exprStr(ia)
+				}
+			})
+		}
+		c.check(bad == "" && n > 0, "header-offsets", 0, "header bytes are indexed at constant offsets below 12", "a reply is indexed at "+bad+" which the 12-byte minimum does not cover")
+	}
+
 	// ---------------------------------------------------------------- R2
 	c.rule("R2", "every stream reader uses the frame reader", 4)
 	if rd != nil {
